@@ -10,12 +10,18 @@
 //!         bits of the jet's output value, or `fail`; groups are separated by `|`.
 //! oracle (implementation alone): each answer equals the value computed here, in Rust, directly from
 //!         the supplied data (`expect`), with the BIP-341 annex rule; `sig_all_hash` inside a program
-//!         equals `CTxEnv::sighash_all`; `transaction_id` equals `Transaction::txid`.
+//!         equals `CTxEnv::sighash_all`; `transaction_id` equals `Transaction::txid` and the double
+//!         SHA-256 of the transaction serialised here; 16 digest jets (`input_*s_hash`, `inputs_hash`,
+//!         `output_*s_hash`, `outputs_hash`, `issuance_range_proofs_hash`, `tappath_hash`) equal the
+//!         digests recomputed here from the supplied data (these 18 jets are not in the Lean model).
 //!
 //! Known finding F-C15 (`annex-single-item-0x50`): `get_annex` takes a single witness item starting
 //! 0x50 for an annex.  Exactly those answers (annex getter, one-element stack, first byte 0x50, the
 //! answer being what the code's rule gives) are reported under that class and left out of the
 //! correspondence ops; any other disagreement about an annex has the class `getter-…`.
+//! Second known finding (`is-fee-null-value`): `output_is_fee` on {empty script, explicit asset,
+//! NULL value} says "fee" (the C code copies a NULL amount as explicit zero); exactly that shape and
+//! answer is reported under that class (the model mirrors the C code, the op stays).
 
 use crate::ctx::{self, Ctx, Rng};
 use simplicity::elements::bitcoin::hashes::{sha256, Hash};
@@ -374,6 +380,22 @@ const JETS: &[(&str, Elements, Fam, &str)] = &[
     ("total_fee", Elements::TotalFee, Fam::TotalFee, ""),
     ("sig_all_hash", Elements::SigAllHash, Fam::OracleOnly, ""),
     ("transaction_id", Elements::TransactionId, Fam::OracleOnly, ""),
+    ("input_outpoints_hash", Elements::InputOutpointsHash, Fam::OracleOnly, ""),
+    ("input_amounts_hash", Elements::InputAmountsHash, Fam::OracleOnly, ""),
+    ("input_scripts_hash", Elements::InputScriptsHash, Fam::OracleOnly, ""),
+    ("input_utxos_hash", Elements::InputUtxosHash, Fam::OracleOnly, ""),
+    ("input_sequences_hash", Elements::InputSequencesHash, Fam::OracleOnly, ""),
+    ("input_annexes_hash", Elements::InputAnnexesHash, Fam::OracleOnly, ""),
+    ("input_script_sigs_hash", Elements::InputScriptSigsHash, Fam::OracleOnly, ""),
+    ("inputs_hash", Elements::InputsHash, Fam::OracleOnly, ""),
+    ("issuance_range_proofs_hash", Elements::IssuanceRangeProofsHash, Fam::OracleOnly, ""),
+    ("output_amounts_hash", Elements::OutputAmountsHash, Fam::OracleOnly, ""),
+    ("output_nonces_hash", Elements::OutputNoncesHash, Fam::OracleOnly, ""),
+    ("output_scripts_hash", Elements::OutputScriptsHash, Fam::OracleOnly, ""),
+    ("output_range_proofs_hash", Elements::OutputRangeProofsHash, Fam::OracleOnly, ""),
+    ("output_surjection_proofs_hash", Elements::OutputSurjectionProofsHash, Fam::OracleOnly, ""),
+    ("outputs_hash", Elements::OutputsHash, Fam::OracleOnly, ""),
+    ("tappath_hash", Elements::TappathHash, Fam::OracleOnly, ""),
 ];
 
 fn jet_by_name(n: &str) -> Option<&'static (&'static str, Elements, Fam, &'static str)> {
@@ -692,6 +714,189 @@ fn expect(m: &MEnv, name: &str, fam: Fam, g: &str, arg: &Arg) -> Option<Vec<bool
 }
 
 // ---------------------------------------------------------------------------------------------
+// digests over the supplied data (oracle only; the serialisations are the ones env.c documents)
+
+fn h(b: &[u8]) -> [u8; 32] {
+    sha256::Hash::hash(b).to_byte_array()
+}
+fn ser_conf(c: &Conf, base: u8) -> Vec<u8> {
+    match c {
+        Conf::Null => vec![0],
+        Conf::Explicit(d) => [&[1u8][..], d].concat(),
+        Conf::Conf(o, x) => [&[base | *o as u8][..], x].concat(),
+    }
+}
+/// in the digests a null amount counts as explicit zero
+fn ser_amt_digest(a: &Amt) -> Vec<u8> {
+    match a {
+        Amt::Null => [&[1u8][..], &0u64.to_be_bytes()].concat(),
+        Amt::Explicit(v) => [&[1u8][..], &v.to_be_bytes()].concat(),
+        Amt::Conf(o, x) => [&[8 | *o as u8][..], x].concat(),
+    }
+}
+/// consensus serialisation of an amount (null = one zero byte)
+fn ser_amt(a: &Amt) -> Vec<u8> {
+    match a {
+        Amt::Null => vec![0],
+        _ => ser_amt_digest(a),
+    }
+}
+fn varint(n: usize) -> Vec<u8> {
+    if n < 0xfd {
+        vec![n as u8]
+    } else if n <= 0xffff {
+        [&[0xfd][..], &(n as u16).to_le_bytes()].concat()
+    } else {
+        [&[0xfe][..], &(n as u32).to_le_bytes()].concat()
+    }
+}
+/// the transaction id: double SHA-256 of the serialisation without witnesses
+fn txid_of(m: &MEnv) -> [u8; 32] {
+    let mut b = m.version.to_le_bytes().to_vec();
+    b.push(0);
+    b.extend(varint(m.inputs.len()));
+    for i in &m.inputs {
+        let has_iss = !(i.amount == Amt::Null && i.keys == Amt::Null);
+        b.extend_from_slice(&i.txid);
+        b.extend_from_slice(&(i.vout | (i.is_pegin as u32) << 30 | (has_iss as u32) << 31).to_le_bytes());
+        b.extend(varint(i.script_sig.len()));
+        b.extend_from_slice(&i.script_sig);
+        b.extend_from_slice(&i.seq.to_le_bytes());
+        if has_iss {
+            b.extend_from_slice(&i.nonce);
+            b.extend_from_slice(&i.entropy);
+            b.extend(ser_amt(&i.amount));
+            b.extend(ser_amt(&i.keys));
+        }
+    }
+    b.extend(varint(m.outputs.len()));
+    for o in &m.outputs {
+        b.extend(ser_conf(&o.asset, 0x0a));
+        b.extend(ser_amt(&o.value));
+        b.extend(ser_conf(&o.nonce, 0x02));
+        b.extend(varint(o.spk.len()));
+        b.extend_from_slice(&o.spk);
+    }
+    b.extend_from_slice(&m.lock_time.to_le_bytes());
+    h(&h(&b))
+}
+
+/// `code_annex`: use the code's annex rule instead of BIP-341's (to recognise the known finding)
+fn digest(m: &MEnv, name: &str, code_annex: bool) -> [u8; 32] {
+    let nin = shown_inputs(m);
+    let ins = || m.inputs[..nin].iter().zip(m.utxos[..nin].iter());
+    let annex = |i: &MIn| -> Option<Vec<u8>> {
+        if code_annex {
+            i.wit.last().filter(|l| l.first() == Some(&0x50)).map(|l| l[1..].to_vec())
+        } else {
+            bip341_annex(&i.wit).map(|a| a.to_vec())
+        }
+    };
+    let mut b: Vec<u8> = vec![];
+    match name {
+        "input_outpoints_hash" => {
+            for (i, _) in ins() {
+                match &i.pegin {
+                    Some(g) => {
+                        b.push(1);
+                        b.extend_from_slice(g);
+                    }
+                    None => b.push(0),
+                }
+                b.extend_from_slice(&i.txid);
+                b.extend_from_slice(&i.vout.to_be_bytes());
+            }
+        }
+        "input_amounts_hash" => {
+            for (_, u) in ins() {
+                b.extend(ser_conf(&u.asset, 0x0a));
+                b.extend(ser_amt_digest(&u.value));
+            }
+        }
+        "input_scripts_hash" => {
+            for (_, u) in ins() {
+                b.extend_from_slice(&h(&u.spk));
+            }
+        }
+        "input_utxos_hash" => {
+            b.extend_from_slice(&digest(m, "input_amounts_hash", code_annex));
+            b.extend_from_slice(&digest(m, "input_scripts_hash", code_annex));
+        }
+        "input_sequences_hash" => {
+            for (i, _) in ins() {
+                b.extend_from_slice(&i.seq.to_be_bytes());
+            }
+        }
+        "input_annexes_hash" => {
+            for (i, _) in ins() {
+                match annex(i) {
+                    Some(a) => {
+                        b.push(1);
+                        b.extend_from_slice(&h(&a));
+                    }
+                    None => b.push(0),
+                }
+            }
+        }
+        "input_script_sigs_hash" => {
+            for (i, _) in ins() {
+                b.extend_from_slice(&h(&i.script_sig));
+            }
+        }
+        "inputs_hash" => {
+            b.extend_from_slice(&digest(m, "input_outpoints_hash", code_annex));
+            b.extend_from_slice(&digest(m, "input_sequences_hash", code_annex));
+            b.extend_from_slice(&digest(m, "input_annexes_hash", code_annex));
+        }
+        "issuance_range_proofs_hash" => {
+            for (i, _) in ins() {
+                let k = iss_kind(i);
+                b.extend_from_slice(&h(if k != IssKind::No && is_conf(&i.amount) { &i.amount_rp } else { &[] }));
+                b.extend_from_slice(&h(if k == IssKind::New && is_conf(&i.keys) { &i.keys_rp } else { &[] }));
+            }
+        }
+        "output_amounts_hash" => {
+            for o in &m.outputs {
+                b.extend(ser_conf(&o.asset, 0x0a));
+                b.extend(ser_amt_digest(&o.value));
+            }
+        }
+        "output_nonces_hash" => {
+            for o in &m.outputs {
+                b.extend(ser_conf(&o.nonce, 0x02));
+            }
+        }
+        "output_scripts_hash" => {
+            for o in &m.outputs {
+                b.extend_from_slice(&h(&o.spk));
+            }
+        }
+        "output_range_proofs_hash" => {
+            for o in &m.outputs {
+                b.extend_from_slice(&h(if is_conf(&o.value) { &o.range } else { &[] }));
+            }
+        }
+        "output_surjection_proofs_hash" => {
+            for o in &m.outputs {
+                b.extend_from_slice(&h(if matches!(o.asset, Conf::Conf(..)) { &o.surj } else { &[] }));
+            }
+        }
+        "outputs_hash" => {
+            for n in ["output_amounts_hash", "output_nonces_hash", "output_scripts_hash", "output_range_proofs_hash"] {
+                b.extend_from_slice(&digest(m, n, code_annex));
+            }
+        }
+        "tappath_hash" => {
+            for p in &m.path {
+                b.extend_from_slice(p);
+            }
+        }
+        _ => unreachable!(),
+    }
+    h(&b)
+}
+
+// ---------------------------------------------------------------------------------------------
 // building the real objects
 
 fn mk_asset(c: &Conf) -> Result<confidential::Asset, String> {
@@ -911,15 +1116,43 @@ fn eval(ctx: &mut Ctx, m: &MEnv, txt: &str, queries: &[Query], emit: bool) {
                 }
             };
             if fam == Fam::OracleOnly {
-                // two routes of the implementation
-                let other = match name.as_str() {
-                    "sig_all_hash" => bits(built.env.c_tx_env().sighash_all().as_byte_array()),
-                    _ => bits(built.tx.txid().as_byte_array()),
-                };
                 ctx.case(Some(&format!("{txkey} {name}")));
                 ctx.count(&format!("reach:{name}"));
-                if got.as_ref() != Some(&other) {
-                    ctx.fail(&format!("route-{name}"), &case, &format!("jet {} other route {}", show_ans(&got), show_bits(&other)));
+                match name.as_str() {
+                    // two routes of the implementation
+                    "sig_all_hash" => {
+                        let other = bits(built.env.c_tx_env().sighash_all().as_byte_array());
+                        if got.as_ref() != Some(&other) {
+                            ctx.fail("route-sig_all_hash", &case, &format!("jet {} CTxEnv::sighash_all {}", show_ans(&got), show_bits(&other)));
+                        }
+                    }
+                    // the id of the supplied transaction, serialised here
+                    "transaction_id" => {
+                        let lib = bits(built.tx.txid().as_byte_array());
+                        let own = bits(&txid_of(m));
+                        if got.as_ref() != Some(&lib) || lib != own {
+                            ctx.fail("getter-transaction_id", &case, &format!("jet {} Transaction::txid {} serialised here {}", show_ans(&got), show_bits(&lib), show_bits(&own)));
+                        }
+                    }
+                    // digests recomputed from the supplied data
+                    _ => {
+                        if !in_domain {
+                            ctx.count("outside-domain:utxo-count-differs");
+                        }
+                        let want = Some(bits(&digest(m, name, false)));
+                        if got != want {
+                            let affected = matches!(name.as_str(), "input_annexes_hash" | "inputs_hash")
+                                && m.inputs[..shown_inputs(m)].iter().any(|i| single_0x50(&i.wit));
+                            if affected && got == Some(bits(&digest(m, name, true))) {
+                                if in_domain {
+                                    ctx.count("known:annex-single-item-0x50");
+                                    ctx.fail("annex-single-item-0x50", &case, &format!("an input's witness stack is ONE item starting 0x50: {name} counts it as an annex"));
+                                }
+                            } else {
+                                ctx.fail(&format!("getter-{name}"), &case, &format!("jet returned {} supplied data say {}", show_ans(&got), show_ans(&want)));
+                            }
+                        }
+                    }
                 }
                 continue;
             }
@@ -1661,7 +1894,7 @@ pub fn run(ctx: &mut Ctx) {
     f3.outputs[0].value = Amt::Null;
     run_env(ctx, &f3);
     // 2. generated environments
-    let n = ctx.scale(1500, 15_000);
+    let n = ctx.scale(1500, 25_000);
     for it in 0..n {
         let mut r = ctx.rng.fork();
         let m = gen_env(&mut r, &pts, it);
